@@ -299,6 +299,9 @@ def run_leg(ctx, leg, g, cases, rcases, tier):
                 src = "(%s %s)" % (op, " ".join(x[0] for x in xs)); args = [x[1] for x in xs]; shown = src
             steps.append({"src": src}); m.append((op, args, shown))
         jobs.append({"id": "c09-%s-%d" % (leg, k), "interps": [{"stdlib": True}], "steps": steps, "fuel": 10000})
+        if len(jobs) % 4 == 2:
+            from . import diff as _diff
+            _diff.age(jobs[-1], __import__("random").Random(len(jobs)), 200)      # every fourth job on an interpreter that has seen 200 failing forms
         meta.append(m)
     recs = core.run_jobs(jobs, leg, timeout=600, tag="c09")
     nd = len(defs)
